@@ -8,6 +8,39 @@ VERIF = os.path.dirname(os.path.dirname(os.path.abspath(__file__)))
 TECH = "contract-based deductive verification: sidecar contracts on the real /repo functions, VCs generated from their Python ast by pyvc, discharged by z3 (cvc5 second back end)"
 
 CLAIMED = {
+    'C01': dict(
+        text="Postconditions transcribed from the reference sentences on the real Take (cyclic extension both ways, any count, any "
+             "length), Drop (every integer incl. overshoot), First, Reverse (atoms unchanged), Rotate (outer axis, rank-aware roll "
+             "contract), Split by one size (ceil(n/s) members, the last one short) and the string Find generator (first match at or "
+             "after the previous one + 1, terminates), over sequences of arbitrary length; predicate truth tables over the class "
+             "lattice and the verb dispatch tables. Take's remainder arithmetic rests on seven Lean-checked integer lemmas.",
+        note="Partial: arithmetic/comparison/min/max ufunc verbs, grade, group, shape, transpose, amend, reshape, match, index, range, "
+             "format are NOT under contract (NumPy ufunc semantics would be an assumed contract). Assumed: NumPy tile/concatenate/roll/"
+             "slicing contracts as stated in contracts/c01.py; operands are vectors or outer axes; numpy backend.",
+        ref="DESIGN.md section 4 C01",
+        technique=TECH + "; cvc5 first for the sequence-heavy Take/Split goals; Lean 4 for the modular-arithmetic lemmas"),
+    'C02': dict(
+        text="Adverb contracts on the real eval_adverb_* functions over symbolic sequences of arbitrary length with the verb as an "
+             "uninterpreted function: Each / Each-2 / Each-left / Each-right / Each-pair apply the verb to exactly the members (pairs, "
+             "neighbours) in order, Over and Over-neutral are the left fold (Lean: foldl_cons), Scan-over's last member is the fold "
+             "(Lean: scanl_last), Converge/While/Iterate loop contracts; the ufunc shortcut and dispatch tables map each operator to "
+             "the reduce/accumulate of THAT operator under the stated guards (exhaustive table check).",
+        note="Assumed: functools.reduce / itertools.accumulate as left fold / prefix folds; NumPy ufunc.reduce agrees with the verb on "
+             "rank-1 numeric arrays (assumed contract); string results re-joined. Termination of Converge/While is not claimed.",
+        ref="DESIGN.md section 4 C02",
+        technique=TECH + "; Lean 4 for the fold lemmas; exhaustive enumeration of the operator shortcut table"),
+    'C05': dict(
+        text="Mechanism contracts of the expression compiler: for every IR production the source template emitted by the real "
+             "_ir_to_source of both backends, parsed by CPython's ast, is the expected expression for THAT operator with operands in "
+             "place; every IR the real _ast_to_ir can produce is mapped by both backends or is a documented miss that falls back to "
+             "the interpreter; __setitem__/__delitem__ leave _compiled_cache empty; at all three call sites an exception while "
+             "fetching arguments or running compiled code leads to the interpreter path only. Positional agreement of parameters: "
+             "bounded (IR depth <= 3), labelled.",
+        note="Not decided: that the NumPy expression and the interpreter's verb return equal values for every admitted operand (NumPy "
+             "numeric semantics; no contract in reach). The per-node memo _compiled is not invalidated on rebinding: not an obligation "
+             "(would demand more than the property states), see DESIGN.md.",
+        ref="DESIGN.md section 4 C05",
+        technique=TECH + "; CPython ast of the emitted template as the correspondence oracle; bounded unrolling for positional agreement"),
     'C12': dict(
         text="Termination of the real lexer and recursive-descent parser for every input string: every while loop has an integer variant "
              "(bounded below, strictly decreasing), the mutual recursion decreases the lexicographic measure (len(t)+1-i, rank), progress "
